@@ -5,6 +5,7 @@ import (
 	"encoding/hex"
 	"math/big"
 	"sort"
+	"strings"
 
 	"verifsim/spec"
 	"verifsim/world"
@@ -74,7 +75,7 @@ func (g *Gen) genTx(fam string) *world.TxJSON {
 			cnt := 254 + g.R.Intn(50)
 			if g.R.Intn(3) == 0 {
 				// longer still: past 340 entries the emitted message has more than 1024 '@'-separated parts
-				cnt = []int{340, 341, 342, 400, 1000}[g.R.Intn(5)]
+				cnt = []int{340, 341, 342, 400, 1000, 1365, 1400}[g.R.Intn(7)]
 				if first.Value.Cmp(big.NewInt(int64(cnt))) <= 0 {
 					cnt = 341
 				}
@@ -191,6 +192,9 @@ func (g *Gen) genTx(fam string) *world.TxJSON {
 		if g.R.Intn(25) == 0 {
 			args[5] = make([]byte, 300)
 		}
+		if g.R.Intn(300) == 0 {
+			args[5] = make([]byte, []int{16383, 16384, 32767, 32768, 40000}[g.R.Intn(5)]) // one very long field
+		}
 		extra := uint64(0)
 		for _, a := range args {
 			extra += uint64(len(a))
@@ -216,6 +220,15 @@ func (g *Gen) genTx(fam string) *world.TxJSON {
 		if len(own) > 0 && g.R.Intn(8) != 0 {
 			h := own[g.R.Intn(len(own))]
 			nonce, val = h.Nonce, h.Value
+		}
+		if tt := g.W.Tok(tok); tt != nil && g.R.Intn(3) == 0 {
+			// a nonce for which this account was sent a single-NFT freeze (it may hold only the placeholder)
+			for _, k := range sortedKeysBool(tt.Frozen) {
+				if len(k) > 33 && k[:32] == string(who) && k[32] == 0 {
+					nonce = new(big.Int).SetBytes([]byte(k[33:])).Uint64()
+					break
+				}
+			}
 		}
 		id, nb := g.tokenID(tok, nonce)
 		args := [][]byte{id, nb}
@@ -575,13 +588,28 @@ func (g *Gen) genSC(op string) *world.SCAction {
 			a.Token = hx(h.Token)
 			if g.W.Tok(h.Token) == nil {
 				a.Token = hx(t.ID)
+			} else if h.Nonce > 0 && g.R.Intn(2) == 0 {
+				a.Nonce = h.Nonce // one NFT of the holder, by the composed identifier
+			}
+		}
+		if tt := g.W.Tok(unhex(a.Token)); a.Nonce == 0 && tt != nil && tt.Kind != world.KindFungible && g.R.Intn(3) == 0 {
+			// a nonce the account may not (or no longer) hold
+			if mx := g.W.Ghost.MaxIssued[string(tt.ID)]; mx > 0 {
+				a.Nonce = 1 + uint64(g.R.Int63n(int64(mx%1000)+1))
 			}
 		}
 		if op != "freeze" {
 			tt := g.W.Tok(unhex(a.Token))
 			if tt != nil && g.R.Intn(5) != 0 {
 				if fk := sortedKeysBool(tt.Frozen); len(fk) > 0 {
-					a.Addr = hx([]byte(fk[g.R.Intn(len(fk))]))
+					k := fk[g.R.Intn(len(fk))]
+					a.Nonce = 0
+					if i := strings.IndexByte(k, 0); i == 32 && len(k) > 33 {
+						// a frozen single NFT: "address \x00 nonce bytes"
+						a.Nonce = new(big.Int).SetBytes([]byte(k[33:])).Uint64()
+						k = k[:32]
+					}
+					a.Addr = hx([]byte(k))
 				}
 			}
 		}
